@@ -2,6 +2,7 @@ package main
 
 import (
 	"fmt"
+	"math"
 	"sort"
 	"strings"
 )
@@ -130,9 +131,25 @@ func symptom(exp Exp, o Outcome) string {
 	case exp.KindOnly:
 		return ""
 	case !o.V.Equal(exp.V):
+		if exp.Ulps > 0 && exp.V.K == "float" && withinUlps(o.V.Fl(), exp.V.Fl(), exp.Ulps) {
+			return ""
+		}
 		return "value"
 	}
 	return ""
+}
+
+// withinUlps: two finite floats of the same sign at most n representable values apart.
+func withinUlps(x, y float64, n int) bool {
+	if math.IsNaN(x) || math.IsNaN(y) || math.IsInf(x, 0) || math.IsInf(y, 0) || (x < 0) != (y < 0) {
+		return false
+	}
+	a, b := int64(math.Float64bits(math.Abs(x))), int64(math.Float64bits(math.Abs(y)))
+	d := a - b
+	if d < 0 {
+		d = -d
+	}
+	return d <= int64(n)
 }
 
 func expString(e Exp) string {
@@ -193,6 +210,9 @@ func (ws *workerState) judge(op, form, body string, a Val, b *Val, exp Exp, o Ou
 		if b == nil {
 			key = "un/" + cell + "/" + sym
 		}
+		if exp.Note != "" {
+			key += "/" + exp.Note
+		}
 		if base != nil {
 			key += "/form=" + form
 		}
@@ -205,6 +225,9 @@ func (ws *workerState) judge(op, form, body string, a Val, b *Val, exp Exp, o Ou
 	if base != nil && zeroSignOnly(*base, o) {
 		ws.zeroSign(form, expr, o, *base, mk)
 		return
+	}
+	if base != nil && (a.K == "fn" || (b != nil && b.K == "fn")) && base.T == o.T && base.V.K == o.V.K {
+		return // a closure's string form names the instance: only the kind of the result is comparable
 	}
 	if base != nil && !base.same(o) && base.T != "panic" {
 		key := "form/" + form + "/" + cell
@@ -452,4 +475,112 @@ func (ws *workerState) doUnary(a Val) {
 			break
 		}
 	}
+}
+
+// ---------------------------------------------------------------------------------
+// the same value on both sides
+
+var cmpOps = []string{"==", "!=", "===", "!==", "<", "<=", ">", ">=", "<=>"}
+
+type sameForm struct {
+	Name string
+	Pre  string // statements before the expression
+	L, R string // operand spellings
+}
+
+var sameForms = []sameForm{
+	{"same-var", "", "$a", "$a"},
+	{"alias", "$b = $a;\n", "$a", "$b"},
+	{"ref", "$b = &$a;\n", "$a", "$b"},
+}
+
+// reflexive judges the laws every value obeys against itself, from the outcomes res[op] of
+// `v OP v` in one syntactic form: v == v, !(v != v), v === v, !(v !== v), v <=> v is 0,
+// !(v < v), !(v > v), v <= v, v >= v (NaN: only the complements and !(<), !(>)).
+// Where the reference fixes the evaluation exactly that comparison already decides it.
+func (ws *workerState) reflexive(v Val, form string, res map[string]Outcome, replay func(op, what string) string) {
+	nan := v.IsNaN()
+	def := func(op string) bool { e := refBinary(op, v, v); return e.Def && !e.KindOnly }
+	want := map[string]bool{"==": true, "!=": false, "===": true, "!==": false, "<": false, ">": false, "<=": true, ">=": true}
+	for _, op := range []string{"==", "!=", "===", "!==", "<", ">", "<=", ">="} {
+		if def(op) || (nan && op != "<" && op != ">") {
+			continue
+		}
+		if got, ok := isBoolVal(res[op]); ok && got != want[op] {
+			what := fmt.Sprintf("%s %s %s with the same value on both sides [%s form] is %v; operand class %s", v, op, v, form, got, v.Sub())
+			ws.viol("law/reflexive/"+op+"/"+v.Kind(), what, replay(op, what))
+		}
+	}
+	if o := res["<=>"]; !def("<=>") && !nan && o.T == "value" && o.V.K == "int" && o.V.I != 0 {
+		what := fmt.Sprintf("%s <=> %s with the same value on both sides [%s form] is %d; operand class %s", v, v, form, o.V.I, v.Sub())
+		ws.viol("law/reflexive/<=>/"+v.Kind(), what, replay("<=>", what))
+	}
+	for _, p := range [][2]string{{"==", "!="}, {"===", "!=="}} {
+		if def(p[0]) && def(p[1]) {
+			continue
+		}
+		x, okx := isBoolVal(res[p[0]])
+		y, oky := isBoolVal(res[p[1]])
+		if okx && oky && x == y {
+			what := fmt.Sprintf("(%s %s %s) and (%s %s %s) with the same value on both sides [%s form] are both %v: not complements; operand class %s", v, p[0], v, v, p[1], v, form, x, v.Sub())
+			ws.viol("law/reflexive/compl"+p[0]+"/"+v.Kind(), what, replay(p[1], what))
+		}
+	}
+}
+
+func (ws *workerState) doSame(v Val) {
+	ev := ws.ev
+	scalar := v.IsScalar()
+	for _, f := range sameForms {
+		res := map[string]Outcome{}
+		for _, op := range binaryOps {
+			src := "<?php\n" + f.Pre + f.L + " " + op + " " + f.R + ";"
+			body := f.Pre + "$r = " + f.L + " " + op + " " + f.R + ";"
+			o := ev.eval(src, &v, nil, true)
+			res[op] = o
+			ws.judgeSame(op, f.Name, body, v, scalar, o)
+		}
+		form := f
+		if v.Kind() == "arr" && f.Name == "alias" {
+			continue // $b = $a copies an array; equality of two equal arrays is not this property's
+		}
+		ws.reflexive(v, f.Name, res, func(op, what string) string {
+			return replayScript(v.String()+" "+op+" itself ["+form.Name+" form]", form.Pre+"$r = "+form.L+" "+op+" "+form.R+";", &v, nil, what)
+		})
+	}
+	// one Go value bound to both variables (what two reads of one array element or property give)
+	res := map[string]Outcome{}
+	for _, op := range binaryOps {
+		o := ev.evalSamePtr(srcExpr(op), v)
+		res[op] = o
+		ws.judgeSame(op, "same-instance", "$b = $a;\n$r = $a "+op+" $b;", v, scalar, o)
+	}
+	if v.Kind() != "arr" { // binding clones arrays
+		ws.reflexive(v, "same-instance", res, func(op, what string) string {
+			return replayScript(v.String()+" "+op+" itself [same-instance form]", "$b = $a;\n$r = $a "+op+" $b;", &v, nil, what)
+		})
+	}
+	// $r OP= $r
+	for _, op := range binaryOps {
+		if compoundOf[op] == "" {
+			continue
+		}
+		body := "$r = $a;\n$r " + compoundOf[op] + " $r;"
+		o := ev.eval("<?php\n"+body, &v, nil, true)
+		ws.judgeSame(op, "compound-self", body, v, scalar, o)
+	}
+}
+
+// judgeSame: scalars have no identity, so `v OP v` must be what the reference says and, where
+// it says nothing, what two separately built equal operands give. Objects, arrays and closures
+// get the no-crash clause and the reflexive laws only (an object is legitimately == itself and
+// != a second instance).
+func (ws *workerState) judgeSame(op, form, body string, v Val, scalar bool, o Outcome) {
+	if !scalar {
+		ws.judge(op, form, body, v, &v, Exp{}, o, nil)
+		return
+	}
+	base := ws.ev.eval(srcExpr(op), &v, &v, true)
+	ws.evals++
+	ws.judge(op, form, body, v, &v, refBinary(op, v, v), o, &base)
 }
